@@ -21,13 +21,27 @@ func (c *Conversation) maybeHeartbeat(plain MessagePlaintext, toSend messageWith
 	return plain, compactMessagesWithHeader(toSend, tsExtra), e
 }
 
+// How many MAC keys may wait to be revealed before we send a message just to reveal them?
+const maxMACKeysWaitingToBeRevealed = 16
+
 func (c *Conversation) potentialHeartbeat(plain MessagePlaintext) (toSend messageWithHeader, err error) {
-	if plain == nil {
+	// a heartbeat is a data message: outside a session there is none to send
+	if c.msgState != encrypted {
+		return
+	}
+
+	// MAC keys that have to be revealed travel in the next data message we
+	// send. While we only listen they pile up - for every key rotation, for
+	// every new key exchange - and the message that finally carries them grows
+	// without bound. Do not let more than a few wait.
+	tooManyKeysWaiting := len(c.keys.oldMACKeys) >= maxMACKeysWaitingToBeRevealed
+
+	if plain == nil && !tooManyKeysWaiting {
 		return
 	}
 
 	now := time.Now()
-	if !c.heartbeat.lastSent.Before(now.Add(-heartbeatInterval)) {
+	if !tooManyKeysWaiting && !c.heartbeat.lastSent.Before(now.Add(-heartbeatInterval)) {
 		return
 	}
 
